@@ -10,7 +10,7 @@ import HugrVerif.Proofs.TysCodec
 import HugrVerif.StdTys
 
 namespace HugrVerif.Props.C07
-open HugrVerif Ty Codec Std Gen.StdTypeDefs
+open HugrVerif Ty Codec HugrVerif.Std Gen.StdTypeDefs
 
 /-! ### the join of bounds -/
 
@@ -55,13 +55,13 @@ theorem bound_copyable_iff (t : Ty) : Ty.bound t = .ok .copyable ↔ AllCopyable
 theorem bound_any_iff (t : Ty) : Ty.bound t = .ok .any ↔ ¬ AllCopyable t ∧ ¬ Raises t := Ty.bound_any_iff t
 
 -- non-vacuity: a nested copyable type, a nested linear one, and a raising one
-example : Ty.bound (.sum [[.usize, Ty.tuple [Ty.bool, .function [.qubit] [.qubit] []]], []]) = .ok .copyable := by decide
-example : Ty.bound (Ty.option [Ty.tuple [Ty.bool, .qubit]]) = .ok .any := by decide
+example : Ty.bound (.sum [[.usize, Ty.tuple [Ty.bool, .function [.qubit] [.qubit] []]], []]) = .ok .copyable := rfl
+example : Ty.bound (Ty.option [Ty.tuple [Ty.bool, .qubit]]) = .ok .any := rfl
 example : AllCopyable (.sum [[.usize], []]) :=
-  (bound_ok_copyable_iff _ _ (by decide : Ty.bound (.sum [[.usize], []]) = .ok .copyable)).1 rfl
+  (bound_ok_copyable_iff _ _ (rfl : Ty.bound (.sum [[.usize], []]) = .ok .copyable)).1 rfl
 example : ¬ AllCopyable (Ty.tuple [.usize, .qubit]) := fun h =>
-  absurd ((bound_ok_copyable_iff _ _ (by decide : Ty.bound (Ty.tuple [.usize, .qubit]) = .ok .any)).2 h) (by decide)
-example : Raises (.extType ⟨"e", "T", "", [], .fromParams [0]⟩ []) := (bound_error_iff _).1 (by decide)
+  absurd ((bound_ok_copyable_iff _ _ (rfl : Ty.bound (Ty.tuple [.usize, .qubit]) = .ok .any)).2 h) (by decide)
+example : Raises (.extType ⟨"e", "T", "", [], .fromParams [0]⟩ []) := (bound_error_iff _).1 rfl
 
 /-! ### one corollary per clause of the statement -/
 
@@ -92,7 +92,7 @@ theorem sum_copyable_iff (rows : List (List Ty)) (h : ∀ r ∈ rows, ∀ t ∈ 
       rw [htb] at this
       cases this; rfl
 
-example : Ty.bound (.sum [[.usize], [.qubit]]) = .ok .any := by decide
+example : Ty.bound (.sum [[.usize], [.qubit]]) = .ok .any := rfl
 
 /-- An empty sum is copyable, and so is every unit sum. -/
 theorem empty_sum_copyable : Ty.bound (.sum []) = .ok .copyable := rfl
@@ -113,8 +113,8 @@ theorem either_bound (l r : List Ty) :
     boundRow_eq_mapM, List.mapM_append]
   cases l.mapM Ty.bound <;> cases r.mapM Ty.bound <;> simp [bind, Except.bind, pure, Except.pure, Except.map]
 
-example : Ty.bound (Ty.tuple [Ty.bool, Ty.bool]) = .ok .copyable := by decide   -- the two doctests of `type_bound`
-example : Ty.bound (Ty.tuple [.qubit, Ty.bool]) = .ok .any := by decide
+example : Ty.bound (Ty.tuple [Ty.bool, Ty.bool]) = .ok .copyable := rfl   -- the two doctests of `type_bound`
+example : Ty.bound (Ty.tuple [.qubit, Ty.bool]) = .ok .any := rfl
 
 /-- Function types (also polymorphic ones) are copyable whatever they mention. -/
 theorem function_copyable (i o : List Ty) (r : List String) : Ty.bound (.function i o r) = .ok .copyable := rfl
@@ -136,8 +136,7 @@ theorem opaque_declared (id : String) (b : Bound) (args : List TypeArg) (e : Str
 theorem ext_explicit_bound (d : TypeDefRef) (args : List TypeArg) (b : Bound) (h : d.bound = .explicit b) :
     Ty.bound (.extType d args) = .ok b := bound_extType_explicit d args b h
 
-example : Ty.bound (.extType ⟨"e", "T", "", [.type .any], .explicit .copyable⟩ [.type .qubit]) = .ok .copyable := by
-  decide
+example : Ty.bound (.extType ⟨"e", "T", "", [.type .any], .explicit .copyable⟩ [.type .qubit]) = .ok .copyable := rfl
 
 /-- … or the join of the bounds of the type arguments its definition names: it is copyable exactly
     when each named type argument is (positions may repeat, count from the end when negative, and
@@ -159,11 +158,11 @@ theorem ext_fromParams_copyable_iff (d : TypeDefRef) (args : List TypeArg) (idxs
 
 -- repeated, negative positions; a non-type argument is skipped; a linear argument that is not named does not matter
 example : Ty.bound (.extType ⟨"e", "T", "", [], .fromParams [0, -3, 0, 1]⟩ [.type .usize, .boundedNat 3, .type .qubit])
-    = .ok .copyable := by decide
+    = .ok .copyable := rfl
 example : Ty.bound (.extType ⟨"e", "T", "", [], .fromParams [0, -1]⟩ [.type .usize, .boundedNat 3, .type .qubit])
-    = .ok .any := by decide
+    = .ok .any := rfl
 example : ¬ Raises (.extType ⟨"e", "T", "", [], .fromParams [0, -3, 0, 1]⟩ [.type .usize, .boundedNat 3, .type .qubit]) :=
-  fun h => absurd ((bound_error_iff _).2 h) (by decide)
+  fun h => nomatch ((bound_error_iff _).2 h).symm.trans (rfl : Ty.bound _ = .ok .copyable)
 
 /-- Positions outside the argument list: `IndexError`, never a silently copyable type. -/
 theorem ext_out_of_range_raises (d : TypeDefRef) (args : List TypeArg) (idxs : List Int) (i : Int)
@@ -195,7 +194,51 @@ theorem decoded_bound_eq (t : Ty) (j : Json) (fuel : Nat) (h : encTy t = .ok j) 
   ⟨Ty.norm t, decTy_encTy t j fuel h hp hd, bound_norm t, by rw [encTy_norm, h]⟩
 
 example : ∃ j, encTy (.extType ⟨"e", "T", "", [], .fromParams [0]⟩ [.type .qubit]) = .ok j ∧
-    decTy 5 j = .ok (.opaque "T" .any [.type .qubit] "e") := ⟨_, rfl, by decide⟩
+    decTy 5 j = .ok (.opaque "T" .any [.type .qubit] "e") := ⟨_, rfl, rfl⟩
+
+/-! ### the type layer of the codec (reused by C05) -/
+
+/-- Decoding the encoding of any serialisable type gives its normal form (extension types in opaque
+    form), which encodes to the same document and has the same bound. -/
+theorem type_roundtrip (t : Ty) (j : Json) (fuel : Nat) (h : encTy t = .ok j) (hp : t.isPoly = false)
+    (hd : t.depth ≤ fuel) :
+    decTy fuel j = .ok (Ty.norm t) ∧ encTy (Ty.norm t) = .ok j ∧ Ty.bound (Ty.norm t) = Ty.bound t :=
+  ⟨decTy_encTy t j fuel h hp hd, by rw [encTy_norm, h], bound_norm t⟩
+
+/-- The same for a polymorphic function type, which is serialised as a field of its own shape. -/
+theorem poly_roundtrip (ps : List TypeParam) (i o : List Ty) (r : List String) (j : Json) (fuel : Nat)
+    (h : encTy (.poly ps i o r) = .ok j) (hd : (Ty.poly ps i o r).depth ≤ fuel) :
+    decPoly fuel j = .ok (Ty.norm (.poly ps i o r)) ∧ encTy (Ty.norm (.poly ps i o r)) = .ok j :=
+  ⟨decPoly_encTy ps i o r j fuel h hd, by rw [encTy_norm, h]⟩
+
+/-- … as an element type it is rejected (`ValidationError`), like `_to_serial_root()` does. -/
+theorem poly_not_an_element (ps : List TypeParam) (i o : List Ty) (r : List String) (ts : List Ty) :
+    encRow (.poly ps i o r :: ts) = .error .validationError ∧
+      encArg (.type (.poly ps i o r)) = .error .validationError := ⟨rfl, rfl⟩
+
+theorem arg_roundtrip (a : TypeArg) (j : Json) (fuel : Nat) (h : encArg a = .ok j) (hd : a.depth ≤ fuel) :
+    decArg fuel j = .ok (Ty.normArg a) ∧ encArg (Ty.normArg a) = .ok j :=
+  ⟨decArg_encArg a j fuel h hd, by rw [encArg_normArg, h]⟩
+
+theorem param_roundtrip (p : TypeParam) (fuel : Nat) (hd : p.depth ≤ fuel) : decParam fuel (encParam p) = .ok p :=
+  decParam_encParam p fuel hd
+
+/-- Unknown fields are ignored and `runtime_reqs` is optional. -/
+theorem dec_extra_fields_ignored (fuel : Nat) (k : String) (v : Json) (hk : k ∉ tyFields) (pre post : List (String × Json)) :
+    decTy fuel (.obj (pre ++ (k, v) :: post)) = decTy fuel (.obj (pre ++ post)) :=
+  decTy_extra_field fuel k v hk pre post
+
+theorem dec_runtime_reqs_default (fuel : Nat) (i o : Json) :
+    decTy fuel (.obj [("t", .str "G"), ("input", i), ("output", o)]) =
+      decTy fuel (.obj [("t", .str "G"), ("input", i), ("output", o), ("runtime_reqs", .arr [])]) :=
+  decTy_runtime_reqs_default fuel i o
+
+example : encTy (.function [.qubit] [Ty.bool] ["e"]) = .ok (funcJson [.obj [("t", .str "Q")]]
+    [.obj [("t", .str "Sum"), ("s", .str "Unit"), ("size", .int 2)]] ["e"]) := rfl
+example : (Ty.function [.qubit] [Ty.bool] ["e"]).depth ≤ 3 := by decide
+example : decTy 3 (.obj [("t", .str "Q"), ("zz", .null)]) = .ok .qubit := rfl
+example : "zz" ∉ tyFields := by decide
+example : (TypeArg.sequence [.type .qubit, .boundedNat 2]).depth ≤ 3 := by decide
 
 /-! ### the std containers -/
 
@@ -285,12 +328,23 @@ theorem array_size_check (ty : Ty) (size : TypeArg) :
 
 -- non-vacuity
 example : mkArray .qubit (.boundedNat 3) = .ok (.extType arrayDef [.boundedNat 3, .type .qubit]) := rfl
-example : arrayTypeBound (.extType arrayDef [.boundedNat 3, .type .qubit]) = .ok .any := by decide
+example : arrayTypeBound (.extType arrayDef [.boundedNat 3, .type .qubit]) = .ok .any := rfl
 example : mkArray .qubit (.string "n") = .error .valueError := rfl
-example : mkStaticArray Ty.bool = .ok (.extType staticArrayDef [.type Ty.bool]) := by decide
+example : mkStaticArray Ty.bool = .ok (.extType staticArrayDef [.type Ty.bool]) := rfl
 example : mkStaticArray (Ty.tuple [Ty.bool, .qubit]) = .error .valueError :=
-  staticArray_rejects_linear _ (by decide)
-example : Ty.bound (mkList (Ty.option [.qubit])) = .ok .any := by decide
+  staticArray_rejects_linear _ rfl
+example : Ty.bound (mkList (Ty.option [.qubit])) = .ok .any := rfl
+
+/-- a position names an existing *type* parameter -/
+def idxOk (params : List TypeParam) (i : Int) : Bool :=
+  decide (0 ≤ i) && match params[i.toNat]? with
+    | some (.type _) => true
+    | _ => false
+
+def defOk (d : TypeDefRef) : Bool :=
+  match d.bound with
+  | .explicit _ => true
+  | .fromParams idxs => idxs.all (idxOk d.params)
 
 /-- Every bundled std type definition that computes its bound from parameters names only positions
     that exist and hold *type* parameters: instantiated with an argument list of the declared length
@@ -298,6 +352,18 @@ example : Ty.bound (mkList (Ty.option [.qubit])) = .ok .any := by decide
 theorem std_defs_indices_in_range :
     ∀ d ∈ allStd, ∀ idxs, d.bound = .fromParams idxs →
       ∀ i ∈ idxs, 0 ≤ i ∧ ∃ b, d.params[i.toNat]? = some (.type b) := by
-  decide
+  have hall : allStd.all defOk = true := by decide
+  intro d hd idxs h i hi
+  have h1 := List.all_eq_true.1 hall d hd
+  simp only [defOk, h, List.all_eq_true] at h1
+  have h2 := h1 i hi
+  simp only [idxOk, Bool.and_eq_true, decide_eq_true_eq] at h2
+  refine ⟨h2.1, ?_⟩
+  have h3 := h2.2
+  split at h3
+  · rename_i b heq; exact ⟨b, heq⟩
+  · cases h3
+
+example : ∃ d ∈ allStd, ∃ idxs, d.bound = .fromParams idxs ∧ idxs ≠ [] := ⟨arrayDef, by simp [allStd, arrayDef], [1], rfl, by decide⟩
 
 end HugrVerif.Props.C07
